@@ -414,11 +414,23 @@ def hasDupNames (live : List JVar) : Bool :=
   let ns := live.map (·.name)
   ns.eraseDups.length != ns.length
 
+def hasDupNamesL (ns : List String) : Bool := ns.eraseDups.length != ns.length
+
 def expectedAfterRestore (s : JState) (noclear : Bool) : Option (List JVar) :=
   match s.snap with
   | none => none
   | some (snap, zeros) =>
-    if snap.length != s.live.length then none else
+    if snap.map (fun v => (v.name, v.isStatic)) != s.live.map (fun v => (v.name, v.isStatic)) then
+      -- the file was written by ANOTHER program (version): matching is by name — a non-static variable takes the value
+      -- of the non-static variable of that name that got a line (text "0" only with save_zeros); everything else keeps
+      -- its live value (no-clear) or is 0 (cleared) / untouched (static)
+      if hasDupNamesL (snap.map (·.name)) ∨ hasDupNamesL (s.live.map (·.name)) then none else
+      some (s.live.map (fun lv =>
+        if lv.isStatic then lv
+        else match snap.find? (fun sv => sv.name == lv.name ∧ !sv.isStatic ∧ (zeros || !(isZeroVal (expectOf sv.val)))) with
+          | some sv => { lv with val := sv.val }
+          | none => if noclear then lv else { lv with val := .int 0 }))
+    else
     some ((s.live.zip snap).map (fun (p : JVar × JVar) =>
       let lv := p.1
       let sv := p.2
@@ -470,7 +482,8 @@ def judgeCmd (s : JState) (cmd : String) (impl : List String) : JState × List S
     let vars := parts.filterMap (fun t => match t with | ["v", m, n] => some (m, n) | _ => none)
     ({ s with progs := (name, inhs, vars) :: s.progs }, impl)
   | ["useg", name] =>
-    ({ s with live := declLayout s.progs name false, snap := none }, impl)
+    -- (the snapshot of the last save stays: a later restore into this other program is judged by name)
+    ({ s with live := declLayout s.progs name false }, impl)
   | ["use", o] =>
     let lay := if o == "many" then (List.range 24).map (fun i => (⟨s!"w{i}", i % 4 == 3, .int 0⟩ : JVar)) else layout0
     ({ s with live := lay, snap := none }, impl)
